@@ -291,11 +291,19 @@ class BugQuery:
             for key, values in self.simple
             if key == "id"
         ]
-        candidates.extend(
-            (chart.field, chart.values, functools.partial(self._rebuild_chart, index))
-            for index, chart in enumerate(self.charts)
-            if isinstance(chart, Criterion) and chart.splittable
-        )
+        # a chart's values travel under its v<slot> parameter, which is what
+        # batches() has to price, not the field name
+        slot = 1
+        for index, chart in enumerate(self.charts):
+            if isinstance(chart, Criterion) and chart.splittable:
+                candidates.append(
+                    (
+                        f"v{slot}",
+                        chart.values,
+                        functools.partial(self._rebuild_chart, index),
+                    )
+                )
+            slot = _render(chart, slot)[1]
         if not candidates:
             return None
         return max(candidates, key=lambda axis: len("".join(axis[1])))
